@@ -6,6 +6,7 @@ import (
 	"net/url"
 	"os"
 	"path/filepath"
+	"sync"
 )
 
 // settings holds pprof settings.
@@ -63,7 +64,15 @@ func writeSettings(fname string, settings *settings) error {
 		return fmt.Errorf("failed to create settings directory: %w", err)
 	}
 
-	if err := os.WriteFile(fname, data, 0644); err != nil {
+	// Write the new contents next to the settings file and rename them into
+	// place, so that a crash or a failed write leaves the old file intact.
+	tmp := fname + ".tmp"
+	if err := os.WriteFile(tmp, data, 0644); err != nil {
+		os.Remove(tmp)
+		return fmt.Errorf("failed to write settings: %w", err)
+	}
+	if err := os.Rename(tmp, fname); err != nil {
+		os.Remove(tmp)
 		return fmt.Errorf("failed to write settings: %w", err)
 	}
 	return nil
@@ -109,8 +118,14 @@ func configMenu(fname string, u url.URL) []configMenuEntry {
 	return result
 }
 
+// settingsMu serializes the read-modify-write cycles of editSettings: web
+// requests that save or delete configurations run concurrently.
+var settingsMu sync.Mutex
+
 // editSettings edits settings by applying fn to them.
 func editSettings(fname string, fn func(s *settings) error) error {
+	settingsMu.Lock()
+	defer settingsMu.Unlock()
 	settings, err := readSettings(fname)
 	if err != nil {
 		return err
